@@ -41,6 +41,8 @@ def slice_keep(tier: str):
         if not quick:
             return True
         fam, m = j["family"].split("/")[0].split("~")[0], j["meta"]
+        if "~" in j["family"]:
+            return True  # variants are only built from programs of the slice
         if j["family"].split("~")[0] in ("C10/scope", "C10/nonbinding", "C11/eqagg"):
             return True  # small sub-families
         if fam == "C05":
@@ -67,7 +69,8 @@ def slice_keep(tier: str):
             return (m.get("helper", "plain") in ("plain", "two_elems", "extra_neg", "bound", "nogrp")
                     and m["fun"] in ("sum", "count", "max"))
         if fam == "C14":
-            return m["ctx"] == "rX" and m["binders"] == "pq" and len(m["lits"]) == 2
+            # every third program (by job id) of the two-literal rX/pq programs: math is the slowest pass
+            return m["ctx"] == "rX" and m["binders"] == "pq" and len(m["lits"]) == 2 and int(j["id"][:6], 16) % 3 == 0
         if fam == "C16":
             return m["head"] == "h2b" and len(m["lits"]) == 3
         return True
